@@ -90,8 +90,7 @@ theorem length_erase_lt (v : Nat) (l : MMap) (h : v ∈ nodes l) :
   | cons e l ih =>
     unfold mmErase
     by_cases he : e.2 = v
-    · have : (e.2 != v) = false := by simp [he]
-      rw [List.filter_cons_of_neg (by simp [he])]
+    · rw [List.filter_cons_of_neg (by simp [he])]
       have := length_erase_le v l
       unfold mmErase at this
       simp only [List.length_cons]; omega
